@@ -1396,7 +1396,16 @@ class Exec:
             return
         if isinstance(o, PyDict):
             if is_z3(idx):
-                raise Unsupported("symbolic key into a concrete-key dict")
+                # a symbolic key: the same term overwrites its entry; a new term is a new entry only if it provably differs from every symbolic key already there
+                # (concrete keys of another type - strings - cannot collide with a number)
+                if _ZKey(idx) in o.d:
+                    o.d[_ZKey(idx)] = v
+                    return
+                for k in o.d.keys():
+                    if isinstance(k, _ZKey) and not self.provable(st, k.e != idx) or isinstance(k, (int, float, Fraction)) and not self.provable(st, idx != k):
+                        raise Unsupported("symbolic dict key that may coincide with an existing key")
+                o.d[_ZKey(idx)] = v
+                return
             o.d[idx] = v
             return
         if isinstance(o, IntMap):
@@ -1933,6 +1942,12 @@ class Exec:
                     q = self.prog.resolve_method(o.module, b.id, attr)
                     if q:
                         return BoundMethod(o.obj, q)
+                    # a base class outside the repository: callable only through an assumed contract on "<its module>:<Class>.<method>"
+                    imp = self.prog.module(o.module).imports.get(b.id)
+                    if imp and imp[0] == "from":
+                        q = f"{imp[1]}:{imp[2]}.{attr}"
+                        if any(c.qual == q for c in self.reg.contracts.values()):
+                            return BoundMethod(o.obj, q)
             raise Unsupported(f"super().{attr}")
         if isinstance(o, ModuleRef):
             return libmodels.module_attr(self, o, attr, mod)
@@ -2251,12 +2266,14 @@ class Exec:
         """signature of a function that exists only as an assumed contract (external base-class method): taken from the contract's parameter list"""
         c = next(c for c in self.reg.contracts.values() if c.qual == qual)
         src = "def f(" + ", ".join(c.params.keys()) + "): pass"
-        return self.prog.module(qual.split(":")[0]), ast.parse(src).body[0]
+        m = qual.split(":")[0]
+        # a class of a library outside the repository has no module here: default-argument expressions do not exist in the synthetic signature, so any module serves
+        return self.prog.module(m if self.prog.has_module(m) else self.fn_stack[-1][0].split(":")[0]), ast.parse(src).body[0]
 
     def call_function(self, qual, args, kwargs, st, node):
         try:
             fmod, fnode = self.prog.function(qual)
-        except KeyError:
+        except (KeyError, FileNotFoundError):
             if not any(c.qual == qual for c in self.reg.contracts.values()):
                 raise
             self.used_models.add(f"external method {qual}: assumed contract only (no body in the repository)")
@@ -2563,6 +2580,22 @@ def _has_quant(e):
         stack.extend(x.children())
     _quant_cache[k] = res
     return res
+
+
+class _ZKey:
+    """a symbolic term used as a dict key: hashable by structure"""
+
+    def __init__(self, e):
+        self.e = e
+
+    def __hash__(self):
+        return self.e.hash()
+
+    def __eq__(self, other):
+        return isinstance(other, _ZKey) and self.e.eq(other.e)
+
+    def __repr__(self):
+        return f"<key {self.e}>"
 
 
 class _SuperRef:
